@@ -198,13 +198,16 @@ func (w WriteRes) Wire() []byte {
 }
 
 // WriteOn performs c.Write(p) (which may sleep in the IAT modes) and collects the segments.
-func WriteOn(sc *vlib.ScriptConn, c net.Conn, p []byte) WriteRes {
+// If the call has not returned after limit, the underlying conn is closed (so that the call
+// ends and stops drawing random bytes) and Stuck is reported.
+func WriteOn(sc *vlib.ScriptConn, c net.Conn, p []byte, limit time.Duration) WriteRes {
 	var res WriteRes
 	op := sc.Start(func() { res.N, res.Err = c.Write(p) })
-	fin, _ := sc.WaitT(op, 120*time.Second)
+	fin, _ := sc.WaitT(op, limit)
 	if !fin {
-		res.Stuck = true
-		return res
+		sc.Close()
+		sc.WaitT(op, 30*time.Second)
+		return WriteRes{Stuck: true, Segs: sc.TakeWrites()}
 	}
 	res.Panic = op.Panic
 	res.Segs = sc.TakeWrites()
